@@ -1,5 +1,5 @@
 (* C09 — GDB mode reports each libwayland closure faithfully, as log mode would. *)
-From WD Require Import Base Wire Render Extract ExtractProofs.
+From WD Require Import Base Wire Render Extract ExtractProofs Decode.
 Open Scope Z_scope.
 
 (* a well-formed closure (every signature over i u f s o n a h with version prefix and `?`
@@ -13,6 +13,21 @@ Theorem C09_extract_exact : forall k target cl time, wf_closure cl = true ->
     denote_args (codes (cl_sig cl)) (cl_types cl) (cl_args cl) = Some args.
 Proof. exact extract_exact. Qed.
 Print Assumptions C09_extract_exact.
+
+(* in everything libwayland's own print-out of the closure retains, this agrees with what log mode
+   decodes from that print-out (uses C01's decode_render); NULL strings excluded: known finding D5 *)
+Theorem C09_gdb_agrees_with_log : forall k target cl time wargs queue conn,
+  wf_closure cl = true -> no_null_string (cl_args cl) = true ->
+  wire_args (codes (cl_sig cl)) (cl_types cl) (cl_args cl) = Some wargs ->
+  let w := mkWmsg (Z.to_N time) queue conn (match k with Sent => true | _ => false end) target (cl_sender cl) (cl_name cl) wargs in
+  wf_wmsg w = true -> 0 <= time ->
+  exists gm lm cid,
+    extract_message k target cl time = Ok gm /\ Decode.message (render cur w) = Ok (cid, lm) /\
+    p_time gm = p_time lm /\ p_id gm = p_id lm /\ p_sent gm = p_sent lm /\ p_name gm = p_name lm /\
+    (match k with Sent => True | _ => p_type gm = p_type lm end) /\
+    map retained_arg (p_args gm) = map retained_arg (p_args lm).
+Proof. exact gdb_agrees_with_log. Qed.
+Print Assumptions C09_gdb_agrees_with_log.
 
 Example C09_ex : extract_message RecvServer (s2l "wl_surface")
   (mkClosure (s2l "attach") (s2l "2?oaif") [Some (s2l "wl_buffer"); None; None; None]
